@@ -207,6 +207,9 @@ def real_cases(tier, seed):
             n += 1
             pert = list(range(chains)) if init == "multi" else []
             cases.append(dict(kind="real", kset=name, seed=s, chains=chains, schedule=sch, chunk=_gcd(sch), jitter=jitter, init=init, repeat=True, perturb=pert, eseed=(300 + n if n % 2 == 0 else None)))
+    # bounded support a < 1: with the element-wise jitter (+0.25) chain 2 starts inside the support
+    # (0.75), the perturbed chain 2 (+0.5) outside it; the other chains must not notice
+    cases.append(dict(kind="real", kset="rw", seed=seeds[0], chains=3, schedule=[["BURNIN", 2, 1], ["POSTERIOR", 3, 1]], chunk=1, jitter="det", init="multi", repeat=False, perturb=[2], eseed=None, bounded=1.0))
     return cases
 
 
@@ -522,7 +525,13 @@ def _run_engine(case, seed_form, perturb, stage):
         included = ["w"]
     else:
         kdef = dict(REAL_SETS)[case["kset"]]
-        model = gs.DictInterface(lambda s: -0.5 * jnp.sum((s["a"] - 1.0) ** 2) - 0.25 * jnp.sum(s["b"] ** 2) - 0.1 * s["a"] * s["b"][0])
+        cut = case.get("bounded")  # support a < cut: a jittered start value may fall outside it
+
+        def _lp(s):
+            base = -0.5 * jnp.sum((s["a"] - 1.0) ** 2) - 0.25 * jnp.sum(s["b"] ** 2) - 0.1 * s["a"] * s["b"][0]
+            return base if cut is None else base + jnp.where(s["a"] < cut, 0.0, -jnp.inf)
+
+        model = gs.DictInterface(_lp)
         kernels = [getattr(gs, cls)(keys) for cls, keys in kdef]
         gens = []
         jfn = _jitter_fns(case)
@@ -558,6 +567,9 @@ def _run_engine(case, seed_form, perturb, stage):
     builder.positions_included = included
     stage[0] = "build"
     engine = builder.build()
+    if case.get("build_twice"):
+        # the same, fully configured builder is asked for a second engine; that one is run
+        engine = builder.build()
     if case["chunk"] != engine._jitted_sample_duration:
         stage[0] = "Engine"
         # explicit chunk size: the Engine constructor with what the builder passes
@@ -734,6 +746,12 @@ def _check_case(res, case):
             viol("reproducibility", "same-int-seed-differs", f"two runs with the same int seed differ in {len(bad)} leaves, first {bad[:3]}", bad[:10])
         if not all(_same(x, y) for x, y in zip(A["carries"], B["carries"])):
             viol("reproducibility", "carry-key-differs", "Engine._prng_key differs between two identical runs")
+        B2 = run_engine(dict(case, build_twice=True), "int")
+        runs += 1
+        bad = compare_runs(la, B2["leaves"])
+        res.outcome("repro-second-build", "equal" if not bad else "differs")
+        if bad:
+            viol("reproducibility", "second-build-of-the-same-builder-differs", f"the second engine built from one and the same builder gives different results than the first in {len(bad)} leaves, first {bad[:3]}", bad[:10])
     Ck = run_engine(case, "key")
     runs += 1
     bad = compare_runs(la, Ck["leaves"])
